@@ -165,6 +165,10 @@ def _rand_pairs(rng, n):
             za, zb = rng.choice(ZIDX), rng.choice(ZIDX)
         else:
             za, zb = rng.choice(FIXED + ZIDX[:1]), rng.choice(FIXED)
+            if rng.random() < 0.25:
+                # mirrored offsets of less than an hour (+00:MM / -00:MM): differently named zones, whatever their names look like
+                m = rng.choice((60, 300, 900, 1800, 2700, 3540, rng.randint(1, 59) * 60)) * US
+                za, zb = ("f%d" % m, "f%d" % -m) if rng.random() < 0.5 else ("f%d" % -m, "f%d" % m)
         fa, fb = (rng.randint(0, 1), rng.randint(0, 1)) if named else (0, 0)
         if i % 5 == 0 and kind != "date":
             mode = {"naive": "naive"}.get(kind, rng.choice(("native", "native", "sub", "nameless")))
